@@ -386,7 +386,7 @@ def _work(idxs):
                     if vr != z3.unsat:
                         break
                 if vr == z3.unsat:
-                    res["status"] = "inconclusive"
+                    res["status"] = "vacuous"
                     res["detail"] = "vacuous: the hypotheses of every main goal (%s ...) are unsatisfiable" % main[0].name
                     res["secs"] = time.time() - t1
                     results.append(res)
@@ -535,9 +535,15 @@ def run_probes(chk, probes, workers=None, chunk=24):
         with ctx.Pool(workers) as pool:
             allres = pool.map(_work, chunks, chunksize=1)
     nq = 0
+    nvac = 0
     for rs in allres:
         for r in rs:
             st = r["status"]
+            if st == "vacuous":
+                # C11 defines the expression for no operand value at all (e.g. `~uc << n`): the probe decides nothing
+                nvac += 1
+                chk.extra.setdefault("vacuous_probes_dropped", []).append(r["key"])
+                continue
             rp = None
             if st in ("violated", "violated-unreplayed", "mismatch") and r["replay"]:
                 rp = chk.write_replay(r["key"], r["replay"], ext=".sh")
@@ -545,6 +551,8 @@ def run_probes(chk, probes, workers=None, chunk=24):
                 st = "violated"
             chk.add(r["key"], st, r["detail"], r["secs"], replay=rp, family=r["family"])
             nq += r["nq"]
+    if nvac > max(20, len(probes) // 50):
+        chk.add("vacuity/too-many-vacuous-probes", "inconclusive", "%d of %d probes have unsatisfiable hypotheses" % (nvac, len(probes)))
     chk.extra["solver_queries"] = chk.extra.get("solver_queries", 0) + nq
     chk.witnesses += sum(r.get("witness", 0) for rs in allres for r in rs)
     paths = sum(r.get("paths", 0) for rs in allres for r in rs)
